@@ -48,9 +48,9 @@ CHECKS = {
     ),
     "C06": dict(
         category="proof",
-        technique="Verus contracts on the extracted BlockSizeConstraints methods (representation invariant current <= max) + induction lemma over a sequence of additions",
-        text="has_space(s) <=> current + s <= max, checked_add(s) is Ok <=> has_space(s) with an exact update and an untouched state on Err, for all values; hence a block assembled under these guards stays within both limits and the same additions replayed by ProcessProposal cannot fail.",
-        note="Trusted: Verus/Z3, GeneratedCommitments::total_size as an opaque constant, R6 rewrites of ensure!/eyre macros. Not under contract: App::proposal_checks_and_tx_execution (prepare/process agreement), commitment comparison, action-group ordering, typed data-item parsing.",
+        technique="Verus contracts on the extracted BlockSizeConstraints methods (representation invariant current <= max) + induction lemma over a sequence of additions; Kani harnesses on the extracted App::proposal_checks_and_tx_execution (Prepare and Process modes, full-domain sizes) and on the prepare/process transaction loops (bounded to 2 mempool transactions) with a deterministic execution stand-in",
+        text="has_space(s) <=> current + s <= max, checked_add(s) is Ok <=> has_space(s) with an exact update and an untouched state on Err, for all values; hence a block assembled under these guards stays within both limits and the same additions replayed by ProcessProposal cannot fail. Proposal step: PrepareProposal includes a transaction iff it fits both limits, is not of a higher-priority group than what is already included and executes without a fatal error, with exact running totals, and leaves totals and group untouched otherwise; ProcessProposal from the same point accepts exactly those transactions with the same result, totals and group, and rejects over-limit, mis-ordered and fatally failing ones before/without keeping them. Loops: whatever prepare_proposal_tx_execution builds from a mempool is within both limits, group-ordered, cached for FinalizeBlock, and accepted by process_proposal_tx_execution on the same state with identical results and final state (bounded).",
+        note="Trusted: Verus/Z3, GeneratedCommitments::total_size as an opaque constant, R6 rewrites of ensure!/eyre macros. Kani part trusts the stand-ins for CheckedTransaction / execute_transaction (deterministic in state and transaction) / Mempool / ExecTxResult. Not under contract: commitment generation and comparison, decoding and signature checks of proposed transactions, extended-commit-info and upgrade handling in prepare_proposal/process_proposal.",
     ),
     "C07": dict(
         category="other",
